@@ -75,7 +75,7 @@ ADDED = {
     "C01": ("; coverage-guided libFuzzer lane (cargo-fuzz target parse_dsym, 16 processes) with the same oracle inside the target; release-build lane",
             " Numbers at the 2^8/2^16/2^32/2^53 boundaries in every field; multi-byte UTF-8 at every offset; 65540-chamber strip.", ""),
     "C02": ("; grow histories in mixed increments replayed against the model; release-build lane",
-            " A ladder with 65540 chambers (beyond u16) in every representation; predicates also judged on incomplete sets; boundary branching numbers.", ""),
+            " A ladder with 65540 chambers (beyond u16) in every representation; predicates also judged on incomplete sets; boundary branching numbers; index and seed LISTS with repeats and in other orders.", ""),
     "C03": ("; the library's own == on canonical forms compared with model isomorphism",
             " Branching numbers at the 2^8/2^16/2^32 boundaries; a 65540-chamber strip in two numberings.", ""),
     "C04": ("; Miri and ASan lanes for fold -> Partition",
@@ -96,9 +96,9 @@ ADDED = {
     "C15": ("", " Corpus closed under duals, renumberings and validated covers with up to 18 (thorough 32) chambers / 6 (8) sheets, each cover also dualised and renumbered.", ""),
     "C16": ("; ASan lane via C17", " Duals of the corpus, 10-48 renumberings of every corpus cover, externally reported numberings as regression inputs, lens spaces L(p,q) with 4p chambers (p <= 17, thorough all p <= 24) built by the harness's coset enumeration. None on a corpus torus cover is a violation (other numberings give the cube).", ""),
     "C17": ("; ASan lane for orbifold_graph", " Verdict on the certificate cover itself; covers of corpus symbols with up to 18 (32) chambers / 6 (8) sheets.", ""),
-    "C18": ("", " Systems whose rational solution has vanishing p-adic digits (x = a + b p^k); moduli interleaved on each worker; periodic-graph position cache.", ""),
+    "C18": ("", " Systems whose rational solution has vanishing p-adic digits (x = a + b p^k); moduli interleaved on each worker; solutions on the Hadamard bound (1x1 and rotation-dilation systems swept log-uniformly over 30 binary orders of magnitude); periodic-graph position cache.", ""),
     "C19": ("", " Layered networks with 12-40 vertices, sparse non-contiguous labels, antiparallel arc pairs.", ""),
-    "C20": ("", " Binomial-tree histories (maximal rank), queries of several hundred interleaved elements, an element type whose Hash is coarser than its Eq.", ""),
+    "C20": ("", " Binomial-tree histories (maximal rank), queries of several hundred interleaved elements, an element type whose Hash is coarser than its Eq, queries with repeated and never-seen elements, clone_from into instances in use.", ""),
 }
 
 NOT_YET = {
